@@ -26,14 +26,22 @@ import (
 // C10 harness (group "pool"): a Proxy with one pool (timeout, retry policy,
 // circuit breaker, failure codes) serves a sequence of client requests; the
 // transport (package variable fnSendRequest) is scripted per attempt.
-// Observables per request: transport calls, result string, status of the
-// response left in the context, gaps between attempts (lower bounds only);
-// after the sequence: breaker window totals.
+// Observables per request: transport calls, result string, the response the
+// client would get (status, which attempt's backend response it is or -1 for a
+// gateway-made one, payload size), how many attempts received the complete
+// request body, gaps between attempts (lower bounds only); after the sequence:
+// breaker window totals.
+//
+// Per attempt the scripted transport can: answer a status / fail at once /
+// block until the context is done / panic / answer the header and then let
+// the BODY fail after 4 of 10 bytes / let the body stall until the context is
+// done / announce a body larger than the pool's serverMaxBodySize.
 
 type c10PReq struct {
 	Stream bool     `json:"stream"`
-	Script [][2]int `json:"script"` // per attempt (kind, code): 0 status, 1 error, 2 block, 3 panic
+	Script [][2]int `json:"script"` // per attempt (kind, code): 0 status, 1 error, 2 block, 3 panic, 4 body breaks, 5 body stalls until ctx done, 6 body too large
 	Cancel int      `json:"cancel"` // -1, or the attempt during which the client context is cancelled
+	Clen   int      `json:"clen"`   // request body: 0 = declared length, 1 = unknown length (ContentLength -1, chunked)
 }
 
 type c10PIn struct {
@@ -46,6 +54,7 @@ type c10PIn struct {
 	Timeout int64     `json:"timeout"` // ns, 0 = none
 	Cb      bool      `json:"cb"`
 	Fcodes  []int     `json:"fcodes"`
+	Smax    int64     `json:"smax"` // pool serverMaxBodySize (0 = default)
 	Reqs    []c10PReq `json:"reqs"`
 }
 
@@ -53,6 +62,9 @@ type c10POut struct {
 	Calls  int     `json:"calls"`
 	Res    int     `json:"res"` // 0 "", 1 serverError, 2 timeout, 3 clientError, 4 failureCode, 5 internalError, 6 shortCircuited, 7 panic, 8 hang, 9 other
 	Status int     `json:"status"`
+	From   int     `json:"from"`   // attempt whose backend response the client would get; -1 = none / made by the gateway
+	Plen   int64   `json:"plen"`   // payload size of the response the client would get
+	Bodies int     `json:"bodies"` // attempts that received the complete request body
 	Gaps   []int64 `json:"gaps"`
 }
 
@@ -72,7 +84,47 @@ type c10State struct {
 	starts []time.Time
 	ends   []time.Time
 	hung   bool
+	bodies int
+	smax   int64
 }
+
+const c10Payload = "c10 request payload"
+
+// c10Body is a response body that delivers head and then fails: at once with
+// io.ErrUnexpectedEOF, or - stall - only when the request context is done.
+type c10Body struct {
+	head  []byte
+	req   *http.Request
+	stall bool
+	st    *c10State
+}
+
+func (b *c10Body) Read(p []byte) (int, error) {
+	if len(b.head) > 0 {
+		n := copy(p, b.head)
+		b.head = b.head[n:]
+		return n, nil
+	}
+	if b.stall {
+		select {
+		case <-b.req.Context().Done():
+			return 0, b.req.Context().Err()
+		case <-time.After(3 * time.Second):
+			b.st.mu.Lock()
+			b.st.hung = true
+			b.st.mu.Unlock()
+			return 0, errors.New("c10: watchdog: the request context never finished")
+		}
+	}
+	return 0, io.ErrUnexpectedEOF
+}
+
+func (b *c10Body) Close() error { return nil }
+
+// c10OnlyReader hides the concrete reader type (unknown length upload).
+type c10OnlyReader struct{ r io.Reader }
+
+func (r c10OnlyReader) Read(p []byte) (int, error) { return r.r.Read(p) }
 
 var (
 	c10States  sync.Map // id -> *c10State
@@ -95,9 +147,17 @@ func c10Transport(r *http.Request, client *http.Client) (*http.Response, error) 
 		return nil, errors.New("c10: unknown request")
 	}
 	st := v.(*c10State)
+	// the backend consumes the request body of every attempt
+	var got []byte
+	if r.Body != nil {
+		got, _ = io.ReadAll(r.Body)
+	}
 	st.mu.Lock()
 	i := st.calls
 	st.calls++
+	if string(got) == c10Payload {
+		st.bodies++
+	}
 	st.starts = append(st.starts, time.Now())
 	st.mu.Unlock()
 	defer func() {
@@ -119,7 +179,25 @@ func c10Transport(r *http.Request, client *http.Client) (*http.Response, error) 
 	if i >= st.max+16 {
 		kind, code = 0, 200
 	}
+	hdr := http.Header{"Content-Type": []string{"text/plain"}, "X-C10-Attempt": []string{fmt.Sprint(i)}}
+	mk := func(code int, clen int64, body io.ReadCloser) *http.Response {
+		return &http.Response{
+			Status: fmt.Sprintf("%d c10", code), StatusCode: code,
+			Proto: "HTTP/1.1", ProtoMajor: 1, ProtoMinor: 1,
+			Header: hdr, Body: body, ContentLength: clen, Request: r,
+		}
+	}
 	switch kind {
+	case 4: // header in time, body breaks after 4 of 10 bytes
+		return mk(code, 10, &c10Body{head: []byte("0123"), req: r, st: st}), nil
+	case 5: // header in time, body stalls until the context is done
+		return mk(code, 10, &c10Body{head: []byte("0123"), req: r, stall: true, st: st}), nil
+	case 6: // announced body larger than the limit
+		lim := st.smax
+		if lim <= 0 {
+			lim = httpprot.DefaultMaxPayloadSize
+		}
+		return mk(code, lim+1, io.NopCloser(strings.NewReader("0123456789"))), nil
 	case 0:
 		return &http.Response{
 			Status:        fmt.Sprintf("%d c10", code),
@@ -127,7 +205,7 @@ func c10Transport(r *http.Request, client *http.Client) (*http.Response, error) 
 			Proto:         "HTTP/1.1",
 			ProtoMajor:    1,
 			ProtoMinor:    1,
-			Header:        http.Header{"Content-Type": []string{"text/plain"}},
+			Header:        hdr,
 			Body:          io.NopCloser(strings.NewReader("ok")),
 			ContentLength: 2,
 			Request:       r,
@@ -189,7 +267,7 @@ func c10RunPool(in c10PIn) (obs c10PObs) {
 			}
 			obs = c10PObs{Cbt: -1, Cbf: -1}
 			for range in.Reqs {
-				obs.Outs = append(obs.Outs, c10POut{Res: 9, Gaps: []int64{}})
+				obs.Outs = append(obs.Outs, c10POut{Res: 9, From: -1, Gaps: []int64{}})
 			}
 		}
 	}()
@@ -200,6 +278,9 @@ func c10RunPool(in c10PIn) (obs c10PObs) {
 	policies := map[string]resilience.Policy{}
 	if in.Timeout > 0 {
 		pool["timeout"] = time.Duration(in.Timeout).String()
+	}
+	if in.Smax > 0 {
+		pool["serverMaxBodySize"] = in.Smax
 	}
 	if len(in.Fcodes) > 0 {
 		fc := []interface{}{}
@@ -269,11 +350,20 @@ func c10Serve(px *Proxy, in c10PIn, rq c10PReq) (o c10POut) {
 	if in.Retry {
 		max = in.Max
 	}
-	st := &c10State{req: rq, max: max, cancel: cancel}
+	st := &c10State{req: rq, max: max, cancel: cancel, smax: in.Smax}
 	c10States.Store(id, st)
 	defer c10States.Delete(id)
 
-	stdr, _ := http.NewRequestWithContext(cctx, http.MethodPost, "http://c10.test/path?x=1", strings.NewReader("c10 payload"))
+	var body io.Reader = strings.NewReader(c10Payload)
+	if rq.Clen == 1 {
+		body = c10OnlyReader{body}
+	}
+	stdr, _ := http.NewRequestWithContext(cctx, http.MethodPost, "http://c10.test/path?x=1", body)
+	if rq.Clen == 1 {
+		// what the HTTP server hands over for a chunked upload of unknown length
+		stdr.ContentLength = -1
+		stdr.TransferEncoding = []string{"chunked"}
+	}
 	stdr.Header.Set("X-C10-Id", id)
 	req, _ := httpprot.NewRequest(stdr)
 	if rq.Stream {
@@ -295,6 +385,8 @@ func c10Serve(px *Proxy, in c10PIn, rq c10PReq) (o c10POut) {
 	st.mu.Lock()
 	defer st.mu.Unlock()
 	o.Calls = st.calls
+	o.Bodies = st.bodies
+	o.From = -1
 	o.Gaps = []int64{}
 	for j := 0; j+1 < len(st.starts) && j < len(st.ends); j++ {
 		o.Gaps = append(o.Gaps, int64(st.starts[j+1].Sub(st.ends[j])))
@@ -314,6 +406,10 @@ func c10Serve(px *Proxy, in c10PIn, rq c10PReq) (o c10POut) {
 			}()
 			if resp, ok := ctx.GetOutputResponse().(*httpprot.Response); ok && resp != nil {
 				o.Status = resp.StatusCode()
+				if a := resp.HTTPHeader().Get("X-C10-Attempt"); a != "" {
+					fmt.Sscan(a, &o.From)
+				}
+				o.Plen = resp.PayloadSize()
 			}
 		}()
 	}
@@ -354,6 +450,9 @@ func c10PGen(r *vfRand, adv bool) (in c10PIn) {
 		in.Timeout = int64(r.PickInt(60, 80)) * c10PMs
 	}
 	in.Cb = r.Chance(1, 2)
+	if r.Chance(1, 2) {
+		in.Smax = int64(r.PickInt(16, 64, 1024))
+	}
 	for _, c := range []int{500, 502, 503, 404} {
 		if r.Chance(2, 5) {
 			in.Fcodes = append(in.Fcodes, c)
@@ -368,7 +467,10 @@ func c10PGen(r *vfRand, adv bool) (in c10PIn) {
 		max = in.Max
 	}
 	for q := 0; q < nreq; q++ {
-		rq := c10PReq{Cancel: -1, Stream: r.Chance(1, 7)}
+		rq := c10PReq{Cancel: -1, Stream: r.Chance(1, 6)}
+		if r.Chance(1, 2) {
+			rq.Clen = 1
+		}
 		n := max + 1
 		succ := r.Range(0, max+1) // first attempt scripted to succeed
 		if cancelCase {
@@ -377,6 +479,9 @@ func c10PGen(r *vfRand, adv bool) (in c10PIn) {
 		if adv && max > 1 {
 			succ = r.PickInt(max-1, max, max+1)
 		}
+		if adv && rq.Stream {
+			succ = r.PickInt(1, 2, max+1) // the only attempt a stream may get fails
+		}
 		for i := 0; i < n; i++ {
 			var a [2]int
 			switch {
@@ -384,6 +489,12 @@ func c10PGen(r *vfRand, adv bool) (in c10PIn) {
 				a = [2]int{0, r.PickInt(200, 201, 204, 301, 404, 500, 503)}
 			case in.Timeout > 0 && r.Chance(1, 4):
 				a = [2]int{2, 0}
+				if r.Chance(1, 3) {
+					a = [2]int{5, r.PickInt(200, 200, 500)} // header in time, body stalls past the deadline
+				}
+			case r.Chance(1, 6) || (adv && r.Chance(1, 3)):
+				// header in time, then the body breaks / is too large
+				a = [2]int{r.PickInt(4, 4, 6), r.PickInt(200, 200, 201, 500, 503)}
 			case r.Chance(1, 40):
 				a = [2]int{3, 0}
 			case r.Chance(1, 2):
